@@ -110,7 +110,10 @@ func (b *BlockList) refreshRemote() {
 
 	b.fetchBlocklist()
 
-	if err := b.readBlocklists(); err != nil {
+	// The API is serving by now. The local list was loaded by New and is
+	// owned by persist from then on: this pass leaves it, and persist's
+	// scratch files, alone (see readLists).
+	if err := b.readLists(false); err != nil {
 		zlog.Error("Read blocklists after refresh failed", "dir", b.cfg.BlockListDir, "error", err.Error())
 	}
 }
@@ -238,6 +241,18 @@ func (b *BlockList) fetchBlocklist() {
 }
 
 func (b *BlockList) readBlocklists() error {
+	return b.readLists(true)
+}
+
+// readLists loads every list file of the directory. withLocal is false
+// for the refresh that runs while the API is already serving: the API's
+// own "local" list and the "local.tmp.*" scratch files of persist are
+// skipped then. Removing a scratch file there unlinked the file of a
+// persist in flight, whose rename then failed and left the previous list
+// on disk although the API call had succeeded; and re-applying a "local"
+// opened just before an API removal replaced it put the removed entry
+// back into memory.
+func (b *BlockList) readLists(withLocal bool) error {
 	zlog.Info("Loading blocked domains...", "path", b.cfg.BlockListDir)
 
 	if _, err := os.Stat(b.cfg.BlockListDir); os.IsNotExist(err) {
@@ -258,6 +273,9 @@ func (b *BlockList) readBlocklists() error {
 			return nil
 		}
 		if !f.IsDir() {
+			if base := filepath.Base(path); !withLocal && (base == "local" || strings.HasPrefix(base, "local.tmp.")) {
+				return nil
+			}
 			// An interrupted persist leaves its "local.tmp.*" scratch file
 			// behind. It is partial by construction and was never renamed
 			// into place: it is not a list, and loading it would resurrect
